@@ -242,6 +242,20 @@ fn check_tape(tape: &[u8], gates: &Gates, stats: &mut Stats, counting: bool, cli
     if declaration_less {
         chunks.push((*choice.pick(&["(* notes only *)\n", "\n\n", "", "(* a *) (* b *)"])).to_string());
     }
+    // library style: every declaration (or every other one) carries an OSCAT description header of
+    // its own.  One file then holds several description blocks, several files hold one each - the
+    // text between the markers is no code wherever the cut falls
+    let oscat_headers = choice.ratio(1, 6) && gates.want("OSCAT_DESCRIPTION_PER_DECLARATION");
+    if oscat_headers {
+        let every = choice.flag();
+        for (k, c) in chunks.iter_mut().enumerate() {
+            if c.trim().is_empty() || (!every && k % 2 == 1) {
+                continue;
+            }
+            let body = *choice.pick(&["\nversion 1.2\nprogrammer x\n", " one line ", "\n  tested: yes\n  ", ""]);
+            *c = format!("{}{}{}\n{}", crate::lexeme::OSCAT_OPEN_MARK, body, crate::lexeme::OSCAT_CLOSE_MARK, c);
+        }
+    }
     // declarations that the pinned tree answers with "not implemented" (P9999) next to a faulty unit:
     // a rule that gives up at such a declaration gives up for everything it visits later, so whether
     // the fault is still reported must not depend on where the declaration stands.  Only the verdict
@@ -386,6 +400,9 @@ fn check_tape(tape: &[u8], gates: &Gates, stats: &mut Stats, counting: bool, cli
         }
         if unsupported {
             stats.class("unit.single-fault-next-to-unsupported-declaration(verdict only)");
+        }
+        if oscat_headers {
+            stats.class("unit.with-oscat-description-per-declaration");
         }
         stats.absorb_gates(gates);
         if stats.samples.len() < 3 {
